@@ -1,12 +1,46 @@
+"""C03 -- devices see exactly the latest upstream values along the declared wiring.
+(a) whole simulations (flat, nested to depth 3) compared with Model/Sim.v; Coq oracle latest_ok (81) on the flattened wiring;
+(b) the step-exhaustive interrupt injection sweep of C07 (an interrupt of every device at every event-loop step, i.e. also
+    while a tick -- of the master or of a system simulation -- is running), judged by the same oracle: nothing a tick has
+    produced may be lost or left stale because an interrupt arrived in the middle of it."""
+import slevel
 import sprops
+from common import run_shards
+from props import c07
 
 PID = "C03"
 
 
+def inj_part(ck, tier, rng):
+    icases, _ = c07.s_part(ck, tier, rng)
+    iterms = [slevel.render_sim_case(c["cfg"], c["devs"], (1, 1), 0, [], 1_300_000_003, c["run"]) for c in icases]
+    ibad = run_shards(PID + "_i", sprops.HEADER, "sim_case", "oracle_c03", iterms, shard_size=60)
+    ck.coverage.update(injection_sweep_runs=len(icases), injection_sweep_stale_or_lost=len(ibad))
+    for i in sorted(ibad):
+        c = icases[i]
+        ck.report(sprops.REASONS[81] + "-after-a-mid-tick-interrupt",
+                  f"interrupt of device c{c['device']} injected at loop step {c['step']} ({c['name']}): a later update is handed a value "
+                  "which is not the latest one its source reported",
+                  dict(kind="injection", cfg={str(k): v for k, v in c["cfg"].items()}, devs={str(k): v for k, v in c["devs"].items()},
+                       device=c["device"], step=c["step"], inj=c["inj"], codes=ibad[i],
+                       updates=[(cc, t, sorted(i2.items())) for (cc, t, i2) in c["run"]["trace"]][-14:]))
+        break
+
+
 def main(tier, seed):
     return sprops.main_S(PID, tier, seed, {81}, "Props.C03",
-                         ["Model/Sim.v", "Oracle/SimCheck.v", "Oracle/SimOracle.v", "Model/Wiring.v", "Model/Ticker.v", "Model/Component.v", "Proofs/WiringP.v", "Proofs/TickerP.v", "Proofs/SimP.v", "Proofs/FlattenP.v", "Proofs/NonInterfP.v", "Proofs/LatestP.v", "Model/SimTime.v", "Model/Inline.v", "Proofs/EqvP.v", "Proofs/WakeWfP.v", "Proofs/InlineP.v", "Proofs/InlineLoopP.v", "Proofs/InlineScopeP.v", "Proofs/InlineLatestP.v", "Props/C03.v"],
-                         "values along the wiring", "nested")
+                         ["Model/Sim.v", "Oracle/SimCheck.v", "Oracle/SimOracle.v", "Model/Wiring.v", "Model/Ticker.v", "Model/Component.v", "Proofs/WiringP.v", "Proofs/TickerP.v", "Proofs/SimP.v", "Proofs/FlattenP.v", "Proofs/NonInterfP.v", "Proofs/LatestP.v", "Model/SimTime.v", "Model/Inline.v", "Proofs/EqvP.v", "Proofs/WakeWfP.v", "Proofs/InlineP.v", "Proofs/InlineLoopP.v", "Proofs/InlineScopeP.v", "Proofs/InlineLatestP.v", "Proofs/FrameP.v", "Proofs/ExtentP.v", "Proofs/EqvCongP.v", "Props/C03.v"],
+                         "values along the wiring", "nested", extra=inj_part)
 
 
-replay = sprops.replay_S
+def replay(rp):
+    if rp.get("kind") == "injection":
+        cfg = {int(k): dict(order=[(c, kk) for c, kk in v["order"]], conns=[tuple(x) for x in v["conns"]]) for k, v in rp["cfg"].items()}
+        devs = {int(k): tuple(v) for k, v in rp["devs"].items()}
+        r = slevel.run_internal(cfg, devs, (1, 1), 0, [], 1_300_000_003, inject=(rp["step"], rp["device"]))
+        bad = run_shards("replay", sprops.HEADER, "sim_case", "oracle_c03", [slevel.render_sim_case(cfg, devs, (1, 1), 0, [], 1_300_000_003, r)])
+        print("interrupt of device", rp["device"], "injected at loop step", rp["step"])
+        print("updates (device, time, inputs):", [(c, t, sorted(i.items())) for (c, t, i) in r["trace"]][-14:])
+        print("codes:", bad.get(0, []))
+        return 1 if bad else 0
+    return sprops.replay_S(rp)
